@@ -122,6 +122,12 @@ theorem scanRepeat_len : ∀ f (inp : List Nat) (st : St), (scanRepeat f inp st)
         simp at h2; omega
       · simp only; omega
 
+theorem scanRepeat0_len (inp : List Nat) (st : St) : (scanRepeat0 inp st).2.length ≤ inp.length := by
+  unfold scanRepeat0
+  split
+  · exact scanRepeat_len _ inp st
+  · simp
+
 def noDig (k : List Nat) : Prop := nextIsDigit k = false
 
 theorem stripZ_digits : ∀ n : List Nat, n.all isDigitC = true → (stripZ n).all isDigitC = true := by
@@ -192,7 +198,7 @@ theorem scanBracket0_irrel (idc : Nat → Bool) (n1 n2 : Nat) (inp : List Nat) (
   · rfl
   · exact scanBracket_irrel idc n1 n2 inp st h1 h2
 
-attribute [local irreducible] scanEscape scanBracket0 scanRepeat in
+attribute [local irreducible] scanEscape scanBracket0 scanRepeat0 in
 theorem loop_len (idc : Nat → Bool) : ∀ n top (inp : List Nat) (st : St),
     (loop idc top n inp st).2.length ≤ inp.length := by
   intro n; induction n with
@@ -221,12 +227,12 @@ theorem loop_len (idc : Nat → Bool) : ∀ n top (inp : List Nat) (st : St),
               · have := ih true cs (st.bad.emit [41]); omega
               · simp
             · split
-              · have h := scanRepeat_len (cs.length + 1) cs (st.emit [123])
-                have := ih top (scanRepeat (cs.length + 1) cs (st.emit [123])).2 (scanRepeat (cs.length + 1) cs (st.emit [123])).1
+              · have h := scanRepeat0_len cs (st.emit [123])
+                have := ih top (scanRepeat0 cs (st.emit [123])).2 (scanRepeat0 cs (st.emit [123])).1
                 omega
               · have := ih top cs (st.emit [c]); omega
 
-attribute [local irreducible] scanEscape scanBracket0 scanRepeat in
+attribute [local irreducible] scanEscape scanBracket0 scanRepeat0 in
 theorem loop_irrel (idc : Nat → Bool) : ∀ n1 n2 top (inp : List Nat) (st : St),
     inp.length < n1 → inp.length < n2 → loop idc top n1 inp st = loop idc top n2 inp st := by
   intro n1; induction n1 with
@@ -259,7 +265,7 @@ theorem loop_irrel (idc : Nat → Bool) : ∀ n1 n2 top (inp : List Nat) (st : S
                 · exact ih n2 _ _ _ (by omega) (by omega)
                 · rfl
               · split
-                · have h := scanRepeat_len (cs.length + 1) cs (st.emit [123])
+                · have h := scanRepeat0_len cs (st.emit [123])
                   exact ih n2 _ _ _ (by omega) (by omega)
                 · exact ih n2 _ _ _ (by omega) (by omega)
 
@@ -449,7 +455,7 @@ theorem adv_nil (st : St) : adv st [] false = st := by
 
 def plain (c : Nat) : Bool := c ≠ 92 ∧ c ≠ 40 ∧ c ≠ 91 ∧ c ≠ 41 ∧ c ≠ 123
 
-attribute [local irreducible] scanEscape scanRepeat in
+attribute [local irreducible] scanEscape scanRepeat0 in
 theorem loop_plain1 (idc : Nat → Bool) (top : Bool) (n c : Nat) (k : List Nat) (st : St) (hc : plain c = true)
     (hn : (c :: k).length < n) : loop idc top n (c :: k) st = loop idc top n k (adv st [c] false) := by
   simp [plain] at hc
@@ -474,7 +480,7 @@ theorem loop_plain (idc : Nat → Bool) (top : Bool) : ∀ (cs : List Nat) (n : 
     rw [ih n k _ (by simpa using hc.2) (by simp at hn ⊢; omega)]
     simp
 
-attribute [local irreducible] scanEscape scanRepeat in
+attribute [local irreducible] scanEscape scanRepeat0 in
 theorem loop_esc (idc : Nat → Bool) (top : Bool) (n : Nat) (body : List Nat) (st st' : St) (rest : List Nat)
     (h : scanEscape idc false body st = (st', rest)) (hn : (92 :: body).length < n) :
     loop idc top n (92 :: body) st = loop idc top n rest st' := by
@@ -488,7 +494,7 @@ theorem loop_esc (idc : Nat → Bool) (top : Bool) (n : Nat) (body : List Nat) (
     rw [h] at this
     exact loop_irrel idc m (m + 1) top rest _ (by simp at this; omega) (by simp at this; omega)
 
-attribute [local irreducible] scanEscape scanRepeat in
+attribute [local irreducible] scanEscape scanRepeat0 in
 theorem loop_group (idc : Nat → Bool) (top : Bool) (n : Nat) (inner : List Nat) (st st' : St) (rest : List Nat)
     (h : loop idc false n inner (lookCheck inner (adv st [40] false)) = (st', rest)) (hn : (40 :: inner).length < n) :
     loop idc top n (40 :: inner) st = loop idc top n rest st' := by
@@ -503,7 +509,7 @@ theorem loop_group (idc : Nat → Bool) (top : Bool) (n : Nat) (inner : List Nat
     rw [h] at this
     exact loop_irrel idc m (m + 1) top rest _ (by simp at this; omega) (by simp at this; omega)
 
-attribute [local irreducible] scanEscape scanBracket0 scanRepeat in
+attribute [local irreducible] scanEscape scanBracket0 scanRepeat0 in
 theorem loop_bracket (idc : Nat → Bool) (top : Bool) (n : Nat) (inner : List Nat) (st st' : St) (rest : List Nat)
     (h : scanBracket0 idc n inner (adv st [91] false) = (st', rest)) (hn : (91 :: inner).length < n) :
     loop idc top n (91 :: inner) st = loop idc top n rest st' := by
@@ -723,9 +729,34 @@ theorem scanRepeat_range (n mm k : List Nat) (hn : digitsWf n = true) (hm : digi
   rw [scanRepeat_rep mm k hm]
   simp
 
-attribute [local irreducible] scanEscape scanRepeat in
+theorem valid_rep (n k : List Nat) (hn : digitsWf n = true) : validCount (n ++ 125 :: k) = true := by
+  simp [digitsWf] at hn
+  unfold validCount
+  rw [passDigits_digits n _ (by rw [List.all_eq_true]; exact hn.2) (noDig_125 k)]
+  simp [hn.1]
+
+theorem valid_from (n k : List Nat) (hn : digitsWf n = true) : validCount (n ++ 44 :: 125 :: k) = true := by
+  simp [digitsWf] at hn
+  unfold validCount
+  rw [passDigits_digits n _ (by rw [List.all_eq_true]; exact hn.2) (noDig_44 _)]
+  simp [hn.1, passDigits, isDigitC]
+
+theorem valid_range (n mm k : List Nat) (hn : digitsWf n = true) (hm : digitsWf mm = true) :
+    validCount (n ++ 44 :: (mm ++ 125 :: k)) = true := by
+  simp [digitsWf] at hn hm
+  unfold validCount
+  rw [passDigits_digits n _ (by rw [List.all_eq_true]; exact hn.2) (noDig_44 _)]
+  simp only [hn.1, List.isEmpty_iff, if_false]
+  rw [passDigits_digits mm _ (by rw [List.all_eq_true]; exact hm.2) (noDig_125 k)]
+  simp
+
+theorem scanRepeat0_valid (inp : List Nat) (st : St) (h : validCount inp = true) :
+    scanRepeat0 inp st = scanRepeat (inp.length + 1) inp st := by
+  unfold scanRepeat0; rw [if_pos h]
+
+attribute [local irreducible] scanEscape scanRepeat0 in
 theorem loop_brace (idc : Nat → Bool) (top : Bool) (n : Nat) (inner : List Nat) (st st' : St) (rest : List Nat)
-    (h : scanRepeat (inner.length + 1) inner (adv st [123] false) = (st', rest)) (hn : (123 :: inner).length < n) :
+    (h : scanRepeat0 inner (adv st [123] false) = (st', rest)) (hn : (123 :: inner).length < n) :
     loop idc top n (123 :: inner) st = loop idc top n rest st' := by
   cases n with
   | zero => simp at hn
@@ -733,7 +764,7 @@ theorem loop_brace (idc : Nat → Bool) (top : Bool) (n : Nat) (inner : List Nat
     simp only [List.length_cons] at hn
     conv => lhs; unfold loop
     rw [if_neg (by decide), if_neg (by decide), if_neg (by decide), if_neg (by decide), if_pos rfl, emit_adv, h]
-    have := scanRepeat_len (inner.length + 1) inner (adv st [123] false)
+    have := scanRepeat0_len inner (adv st [123] false)
     rw [h] at this
     exact loop_irrel idc m (m + 1) top rest _ (by simp at this; omega) (by simp at this; omega)
 
@@ -766,7 +797,7 @@ theorem loop_quant (idc : Nat → Bool) (top : Bool) (q : Quant) (hq : q.wf = tr
     simp only [Quant.wf] at hq
     simp only [Quant.text, Quant.textGo, List.cons_append, List.append_assoc, List.nil_append] at hn ⊢
     have hsr := scanRepeat_rep c (lazyText l ++ k) hq (adv st [123] false) (c ++ 125 :: (lazyText l ++ k)).length
-    rw [loop_brace idc top n _ st _ _ hsr hn]
+    rw [loop_brace idc top n _ st _ _ ((scanRepeat0_valid _ (adv st [123] false) (valid_rep c (lazyText l ++ k) hq)).trans hsr) hn]
     simp only [adv_adv, Bool.or_false]
     rw [tail st _ (by simp at hn ⊢; omega)]
     simp
@@ -776,7 +807,7 @@ theorem loop_quant (idc : Nat → Bool) (top : Bool) (q : Quant) (hq : q.wf = tr
     have hlen : (c ++ 44 :: 125 :: (lazyText l ++ k)).length + 1 = ((c ++ 44 :: 125 :: (lazyText l ++ k)).length - 1) + 2 := by simp; omega
     have hsr := scanRepeat_from c (lazyText l ++ k) hq (adv st [123] false) ((c ++ 44 :: 125 :: (lazyText l ++ k)).length - 1)
     rw [← hlen] at hsr
-    rw [loop_brace idc top n _ st _ _ hsr hn]
+    rw [loop_brace idc top n _ st _ _ ((scanRepeat0_valid _ (adv st [123] false) (valid_from c (lazyText l ++ k) hq)).trans hsr) hn]
     simp only [adv_adv, Bool.or_false]
     rw [tail st _ (by simp at hn ⊢; omega)]
     simp
@@ -786,7 +817,7 @@ theorem loop_quant (idc : Nat → Bool) (top : Bool) (q : Quant) (hq : q.wf = tr
     have hlen : (c ++ 44 :: (d ++ 125 :: (lazyText l ++ k))).length + 1 = ((c ++ 44 :: (d ++ 125 :: (lazyText l ++ k))).length - 1) + 2 := by simp; omega
     have hsr := scanRepeat_range c d (lazyText l ++ k) hq.1 hq.2 (adv st [123] false) ((c ++ 44 :: (d ++ 125 :: (lazyText l ++ k))).length - 1)
     rw [← hlen] at hsr
-    rw [loop_brace idc top n _ st _ _ hsr hn]
+    rw [loop_brace idc top n _ st _ _ ((scanRepeat0_valid _ (adv st [123] false) (valid_range c d (lazyText l ++ k) hq.1 hq.2)).trans hsr) hn]
     simp only [adv_adv, Bool.or_false]
     rw [tail st _ (by simp at hn ⊢; omega)]
     simp
